@@ -10,7 +10,7 @@ from lib.coqterm import cbool, cbytes, clist, copt, hx, unhx
 
 ID = "C49"
 QUICK_N = 1500
-THOROUGH_N = 30000
+THOROUGH_N = 7500
 SHARD = 130
 RULE = ("Flows of every type the dumper prints (HTTP response/error, WebSocket message/end, TCP/UDP message/error incl. "
         "QUIC labelling, DNS response/error) built with mitmproxy.test.tflow; every attacker-controlled text field "
